@@ -461,7 +461,7 @@ def rule_guards(E, R):
                     "accepted argument kinds: %s" % (sorted(kinds) if kinds else "unrestricted"), s.node["sp"])
         hb = E.hir("ast::logical_expr::bool_array_type")
         if hb:
-            R.check(sem.expr_variant_repr(tail(hb["body"])) == "Type::Array(Type::Bool)", rule, "ast::logical_expr::bool_array_type",
+            R.check(sem.expr_variant_repr(fn_result(hb)) == "Type::Array(Type::Bool)", rule, "ast::logical_expr::bool_array_type",
                     "bool_array_type() is Array(Bool)")
     else:
         R.cannot(rule, fn, "anchor not found")
